@@ -55,6 +55,18 @@ def gen_cases(tier, seed, ctx):
             for c in cuts + [L]:
                 if c > prev: segs.append(msg[prev:c]); prev = c
             add('HASH', t, segs, 'random-long'); add('HASHO', t, segs, 'random-long')
+    # sequences through ONE hash-type / hash object, as the library re-uses them when a hash type option is set after the context was
+    # initialised: every digest must be that of its own message under its own type, whatever was set up (and left unfinished) before
+    for _ in range(60 if tier == 'quick' else 600):
+        items = []
+        for _ in range(rnd.randrange(2, 6)):
+            t = rnd.randrange(4)
+            if rnd.random() < 0.3: items.append('%d:!' % t)
+            else:
+                msg = rnd.randbytes(rnd.choice([0, 1, 55, 56, 64, 111, 112, 128, 300]))
+                items.append('%d:%s' % (t, '|'.join(hx(x) for x in split(rnd, msg, rnd.randrange(3)))))
+        for op, v in (('HASHSEQ', 'bundled'), ('HASHSEQO', 'plain')):
+            cases.append(E.Case('h%d' % len(cases), '%s %s' % (op, ';'.join(items)), dict(kind='type-sequence', variant=v)))
     # messages around 2^29 bytes (where a 32-bit bit counter wraps) and 2^32: both C builds vs hashlib
     blockfile = mkblock(ctx, seed)
     if tier == 'quick' and ctx['proof']['ok']:
@@ -106,7 +118,7 @@ def nontrivial(r):
 def run(tier, seed, replay=None):
     rule = ("HASH (bundled build) and HASHO (OpenSSL build) on the same inputs, each compared with the Lean model/spec: message lengths "
             "0..4 blocks+1 for all four digest types (every length; three segmentations at block/padding boundaries, all lengths x 3 in "
-            "thorough), random messages up to 150 kB in up to 40 update calls; HASHBIG: 2^29-1, 2^29 (+1, 2^32+5 in thorough) byte messages "
+            "thorough), random messages up to 150 kB in up to 40 update calls; HASHSEQ/HASHSEQO: 2-5 digests of differing types through one re-used type/hash object incl. unfinished ones; HASHBIG: 2^29-1, 2^29 (+1, 2^32+5 in thorough) byte messages "
             "through both C builds against hashlib; distinct by op line + build")
     return E.standard_run(PROP, MODULES, gen_cases, tier, seed, replay, ASSUMPTIONS, rule, post=post, nontrivial=nontrivial,
                           timeout_s=120, replay_setup=replay_setup)
